@@ -10,6 +10,7 @@ package main
 
 import (
 	"bufio"
+	"bytes"
 	"context"
 	"encoding/json"
 	"fmt"
@@ -369,6 +370,62 @@ func clip(b []byte) string {
 	return string(b)
 }
 
+// pooled: 2-3 connections take their matching buffers from the pool the way Server.handle does
+// and are prefetched three times each, in every order (no scheduler involved: the order is an
+// enumerated input).  After every step each connection's matching bytes are a prefix of its own
+// stream - whatever the pool's allocator does when several buffers are handed out in a row.
+func pooled(x *explore.Exec, sc *Scn) {
+	layer4.VerifResetPools()
+	n := sc.Conns
+	streams := make([][]byte, n)
+	cxs := make([]*layer4.Connection, n)
+	left := make([]int, n)
+	for i := range cxs {
+		st := make([]byte, 6000)
+		for j := range st {
+			st[j] = byte('A'+i) + byte(j%13)*16
+		}
+		streams[i] = st
+		c := hm.NewSConn(nil, st, true)
+		c.Menu = func(max int) []int { return []int{max} }
+		cxs[i] = layer4.WrapConnection(c, layer4.VerifPooledBuf(), mrun.Nop)
+		left[i] = 3
+	}
+	var order []int
+	for {
+		var live []int
+		for i, l := range left {
+			if l > 0 {
+				live = append(live, i)
+			}
+		}
+		if len(live) == 0 {
+			break
+		}
+		i := live[x.Choose(explore.KInput, len(live))]
+		left[i]--
+		order = append(order, i)
+		layer4.VerifPrefetch(cxs[i])
+		for j, cx := range cxs {
+			if mb := cx.MatchingBytes(); len(mb) > len(streams[j]) || !bytes.Equal(mb, streams[j][:len(mb)]) {
+				x.Fail("cross-talk:pooled", "after prefetching connections in the order %v, connection %d's matching buffer holds %d bytes that are not a prefix of its own stream (first difference at %d)", order, j, len(mb), firstDiffB(mb, streams[j]))
+				return
+			}
+		}
+	}
+	x.Observe(len(order))
+}
+
+func firstDiffB(a, b []byte) int {
+	n := min(len(a), len(b))
+	for i := 0; i < n; i++ {
+		if a[i] != b[i] {
+			return i
+		}
+	}
+	return n
+}
+
 func scenarios(tier string, yield0 func(any) bool) {
 	yield := func(sc *Scn) bool {
 		if only := os.Getenv("VERIF_ONLY"); only != "" && !strings.Contains(string(hm.J(sc)), only) {
@@ -384,6 +441,11 @@ func scenarios(tier string, yield0 func(any) bool) {
 			if !yield(&Scn{Kind: k, Conns: n}) {
 				return
 			}
+		}
+	}
+	for _, n := range []int{2, 3} {
+		if !yield(&Scn{Kind: "pooled", Conns: n}) {
+			return
 		}
 	}
 	for _, p := range []string{"round_robin", "least_conn", "random", "random_choose", "first", "ip_hash"} {
@@ -569,7 +631,11 @@ func main() {
 			ex.Total = tot
 			ex.Stop = rep.Expired
 			vsched.StateSink = rep.State
-			ex.Explore(func(x *explore.Exec) { check(x, sc, execute(x, sc, -1)) })
+			if sc.Kind == "pooled" {
+				ex.Explore(func(x *explore.Exec) { pooled(x, sc) })
+			} else {
+				ex.Explore(func(x *explore.Exec) { check(x, sc, execute(x, sc, -1)) })
+			}
 			rep.AddStats(sc, &ex.Stats)
 		},
 		PostProcess: postProcess,
@@ -584,6 +650,9 @@ func main() {
 			}
 			b, _ := bounds("thorough")
 			ex := explore.New(b)
+			if sc.Kind == "pooled" {
+				return ex.RunOnce(choices, func(x *explore.Exec) { pooled(x, sc) }).Failures
+			}
 			return ex.RunOnce(choices, func(x *explore.Exec) { check(x, sc, execute(x, sc, -1)) }).Failures
 		},
 		Budget: func(tier string) time.Duration {
